@@ -5,6 +5,6 @@ open Runner
 let () =
   register "envmodel" (fun args -> match args with
     | ["static_id"] -> hexbytes static_id
-    | ["static_iv"] -> hexbytes (initial_vector IvStatic { e_time = N0; e_outname = []; e_rand = (fun _ -> N0) } O)
-    | ["zero_iv"] -> hexbytes (initial_vector IvZero { e_time = N0; e_outname = []; e_rand = (fun _ -> N0) } O)
+    | ["static_iv"] -> hexbytes (initial_vector EIvStatic { e_time = N0; e_outname = []; e_rand = (fun _ -> N0) } O)
+    | ["zero_iv"] -> hexbytes (initial_vector EIvZero { e_time = N0; e_outname = []; e_rand = (fun _ -> N0) } O)
     | _ -> "?args")
